@@ -158,7 +158,9 @@ pub fn minimise(eng: &dyn Engine, plan: &Value, class: &str, budget_runs: usize,
         }
         *used += 1;
         let r = settle(eng, cand, run_child(cand, false));
-        if same_failure(&r, class) {
+        // a smaller plan must fail the same way AND stay an unlisted violation: shrinking must not slide into a
+        // listed finding that happens to share the class
+        if same_failure(&r, class) && eng.classify_known(cand, &r).is_none() {
             Some(r)
         } else {
             None
